@@ -32,7 +32,11 @@ RULE = ("classes: (a) the mutate suite's collection-heavy classes with its op hi
         "(copy/deepcopy/pickle in any order) whose every link must succeed and whose result must == x (model: composition of "
         "copyI/deepcopyI/pickleI); an oracle-only stream of classes with Constant attributes (not in the model's declaration "
         "language): same measurements on the real code, assignment to the constant on fresh instance and copies; a copy "
-        "operation that raises anything but a can't-pickle error is a failure; two fixed cases: __validate__ hook after unpickling, "
+        "operation that raises anything but a can't-pickle error is a failure; fields with defaults (0, 0.0, '', False, [], {}, and truthy ones) on 30% of the "
+        "spelling classes plus a directed stream (plain / immutable / _enable_undefined_value / _ignore_none): default left "
+        "to apply vs the same value passed explicitly vs assigned later vs explicit None; a defaulted field absent from "
+        "__dict__ is keyed by how it came to be absent (@explicit-none, @post-history known; @constructor is not); wrapper "
+        "calls on an unset field are not executed (they would edit the class-level default object); two fixed cases: __validate__ hook after unpickling, "
         "Decimals with different exponents; non-trivial = >=2 instances; distinct by sha256 of the case line")
 ASSUMPTIONS = [
     "_enable_undefined_value is modelled for the top-level class only (Inst.nones / Inst.undef, getA reads Undefined, setattrUndef); nested instances carry no _none_fields in the value model; the constructor model (C01/C02) does not know the flag, so start states of such classes are taken from the real code",
@@ -55,7 +59,7 @@ def pre_build():
 
 
 def cases(rng, tier):
-    return P.gen_cases(rng, tier, 260 if tier == "quick" else 2800)
+    return P.gen_cases(rng, tier, 260 if tier == "quick" else 2100)
 
 
 def search_cases(rng, tier):
@@ -120,6 +124,12 @@ def _stale_none(state):
     return set(state.get("nones") or []) & {k for k, _ in state["o"][1]}
 
 
+def _none_with_default(case, sa, sb):
+    """a field with a default is recorded as explicitly None on exactly one side"""
+    names = {n for n, _ in case["cls"].get("defaults") or []}
+    return bool(names & (set(sa.get("nones") or []) ^ set(sb.get("nones") or [])))
+
+
 def judge(case, impl, model):
     msg = P.correspondence(case, impl, model)
     fails = []
@@ -146,6 +156,8 @@ def judge(case, impl, model):
                     imm = set(case["cls"].get("immFields") or []) | {
                         nm for nm, fd in case["cls"]["fields"] if fd.get("k") in ("setAny", "setOf") and fd.get("imm")}
                     which = "none-recorded-over-immutable-field" if stale <= imm else "none-recorded-over-stored-value"
+                elif not eq[i][j] and case["cls"].get("undef") and _none_with_default(case, impl["states"][i], impl["states"][j]):
+                    which = "explicit-none-reads-default"
                 fails.append((f"eq-vs-readback:{which}", f"a == b is {eq[i][j]} but field-wise equality of the values read back is "
                               f"{impl['fieldwise'][i][j]}: a={show(i)} b={show(j)}"))
             if i == j:
